@@ -112,8 +112,11 @@ def run_model_fast(programs, workdir, shard=100, jobs=16, timeout=1200, crossche
     build_extracted()
     os.makedirs(workdir, exist_ok=True)
     shards = [programs[i:i + shard] for i in range(0, len(programs), shard)]
+    # cross-check sample: the first programs of moderate size (printing large terms inside Coq is prohibitively slow)
+    sample = [p for p in programs if len(repr(p)) < 15000][:crosscheck] if crosscheck else []
+    crosscheck = len(sample)
     with ThreadPoolExecutor(max_workers=jobs) as ex:
-        fut_vm = ex.submit(run_model_text, programs[:crosscheck], os.path.join(workdir, "vm"), 3) if crosscheck else None
+        fut_vm = ex.submit(run_model_text, sample, os.path.join(workdir, "vm"), 3) if crosscheck else None
         texts = list(ex.map(_run_shard_ml, [(workdir, k, s, timeout) for k, s in enumerate(shards)]))
         vm_texts = fut_vm.result() if fut_vm else []
     res = []
@@ -122,7 +125,7 @@ def run_model_fast(programs, workdir, shard=100, jobs=16, timeout=1200, crossche
         assert len(part) == len(s)
         res += part
     if crosscheck:
-        ml_sample = _run_shard_ml((workdir, 9999, programs[:crosscheck], timeout))
+        ml_sample = _run_shard_ml((workdir, 9999, sample, timeout))
         vm_joined = "[" + ",".join(x[1:-1] for x in vm_texts) + "]"
         if ml_sample != vm_joined:
             raise RuntimeError("extracted OCaml runner and vm_compute disagree on the cross-check sample "
